@@ -33,10 +33,19 @@ def tasks(tier, seed):
         import re
         for comp in sorted(set(re.findall(r'expressions\("([^"]+)"\)', text))):
             out.append({"family": "SPLIT", "id": text_id(text, "jax-" + comp), "text": text, "opts": {"split": comp}})
+    # every scheme option reaches the JAX module: hybrid Rush-Larsen with stiff states and a non-default delta
+    from . import c07
+    for k, (text, S, delta) in enumerate([(c07.MODELS[0], ["x", "z"], 0.05), (c07.MODELS[2], ["m"], 0.5), (c07.MODELS[6], ["y"], 0.0),
+                                          (c07.MODELS[4], ["b"], 0.05)]):
+        out.append({"family": "HYBJAX", "id": text_id(text, [S, delta]), "text": text,
+                    "opts": {"stiff": S, "backends": ["jax"], "delta": delta, "hybrid": True}})
     return out + witness_tasks(PROP)
 
 
 def work(task):
+    if task.get("opts", {}).get("hybrid"):
+        from . import c07
+        return c07.work(task, prop=PROP)
     prog = Prog(PROP, task, timeout_ms=10000 if task["family"] != "CORPUS" else 20000)
     m, ode = checks.load_all(prog, task["text"])
     if ode is None:
